@@ -10,7 +10,7 @@ import rowan
 
 from ..extern.bentley_ottmann import poly_point_isect
 from ..extern.polytri import polytri
-from .base_classes import Shape2D
+from .base_classes import Shape2D, _require_positive
 from .circle import Circle
 from .utils import (
     _generate_ax,
@@ -275,6 +275,7 @@ class Polygon(Shape2D):
 
     @area.setter
     def area(self, value):
+        _require_positive(value, "Area")
         scale = np.sqrt(value / self.area)
         self._rescale(scale)
 
@@ -556,6 +557,7 @@ class Polygon(Shape2D):
 
     @circumcircle_radius.setter
     def circumcircle_radius(self, value):
+        _require_positive(value, "The radius")
         self._rescale(value / self.circumcircle_radius)
 
     @property
@@ -619,6 +621,7 @@ class Polygon(Shape2D):
 
     @incircle_radius.setter
     def incircle_radius(self, value):
+        _require_positive(value, "The radius")
         self._rescale(value / self.incircle_radius)
 
     def compute_form_factor_amplitude(self, q, density=1.0):  # noqa: D102
